@@ -1,2 +1,3 @@
 pub mod c12_multisig;
 pub mod c16_paych;
+pub mod market;
